@@ -138,7 +138,11 @@ class C02(Property):
                     d["pil_at"] = rng.choice([None, 0, 1, 2])
                     d["pre_frame"] = rng.choice([None, None, 1, 2])
                 d["entry"] = rng.choice(["str", "format", "format", None] + (["iter", "iter"] if d.get("animated") else []))
-                if d["entry"] == "iter":
+                if d.get("animated") and op == "want" and rng.random() < 0.35:
+                    # a DRAWN animation (draw(animate=True), two loops, cached) whose size changes after the first
+                    # loop: the frames re-rendered in the second loop still get draw()'s own alpha
+                    d["entry"] = "drawanim"
+                if d["entry"] in ("iter", "drawanim"):
                     d["pil_at"] = None
                 if d["entry"]:
                     d["split"] = False
@@ -208,6 +212,31 @@ class C02(Property):
             for k, v in saved_env.items():
                 os.environ.pop(k, None) if v is None else os.environ.__setitem__(k, v)
 
+    def _draw_anim(self, im, d, alpha):
+        """draw(animate=True) into a captured stdout, two cached loops, the size changed (one column wider) during the
+        last frame of the first loop; returns what was written for the LAST frame (second loop, new size)"""
+        import io
+        import sys
+        import time
+        n = im.n_frames
+        w0, h0 = im.rendered_size
+        im.set_size(width=w0, height=h0)
+        buf, calls, real_sleep, old = io.StringIO(), [0], time.sleep, sys.stdout
+
+        def fake_sleep(_):
+            calls[0] += 1
+            if calls[0] == n - 1:
+                im.set_size(width=w0 + 1, height=h0)
+
+        sys.stdout, time.sleep = buf, fake_sleep
+        try:
+            im.draw("left", 1, "top", 1, alpha, repeat=2, cached=True)
+        finally:
+            sys.stdout, time.sleep = old, real_sleep
+        im.set_size(width=w0 + 1, height=h0)
+        d["_frame"] = d["frame_no"] = n - 1
+        return buf.getvalue().split("\r")[-1]
+
     def _impl_render(self, case, d, op):
         img, im = self._image(d)
         cap = {}
@@ -229,6 +258,8 @@ class C02(Property):
         entry, alpha = d.get("entry"), d["alpha"]
         if entry == "iter" and not im._is_animated:
             entry = "format"
+        if entry == "drawanim" and (op != "want" or not im._is_animated):
+            entry = "format"
         if entry in ("format", "iter") and isinstance(alpha, float):
             # a format specifier can only spell thresholds in [0, 1) in positional notation
             if not 0.0 <= alpha < 1.0:
@@ -236,12 +267,14 @@ class C02(Property):
             txt = format(alpha, ".25f")[1:]
             if float("0" + txt) != alpha:
                 entry = None  # not spellable exactly: use the direct entry
-        if entry != "iter" and im._is_animated:
+        if entry not in ("iter", "drawanim") and im._is_animated:
             im.seek(d["_frame"])  # explicitly, also to 0: the instance starts where the caller's PIL image stood
         if not entry:
             out = im._renderer(im._render_image, alpha, split_cells=d["split"])
         elif entry == "str":
             out, alpha = str(im), DEFAULT_ALPHA
+        elif entry == "drawanim":
+            out = self._draw_anim(im, d, alpha)
         else:
             spec = "1.1" + ("#" if alpha is None else "##" if alpha == "#" else "#" + alpha[1:] if isinstance(alpha, str)
                             else "#" + format(alpha, ".25f")[1:])
